@@ -152,6 +152,8 @@ def run(prog, chk):
     chk.rule('R12.5', 'deleter lambda / destructor: every call that can throw is inside try{}catch(...)')
     chk.rule('R12.6', 'built-in dispatch subscripts args[k]: arity guaranteed (size guard, or analyser reserves gate names and checks arity)')
     chk.rule('R12.7', 'Object-owning containers are never shrunk in place where a deleter can re-enter (detach the element first)')
+    chk.rule('R12.12', 'a vector subscripted by a loop counter is in range: bounded by its own size, an equal-length vector, or the size it was given')
+    _rule_loop_subscripts(prog, chk, R)
     chk.rule('R12.8', 'a slot that may hold the last reference to an object is overwritten only after its old value was moved out')
     ev = R.ev
     execute = R.ev_method('execute')
@@ -740,3 +742,122 @@ def _no_escape(prog, chk, f, throwing, what):
                 cur = par
             chk.ob('R12.5', f, n.get('ln', f.ln), ok, '%s: throw must not escape' % what, key='%s:throw' % what)
     chk.extra.setdefault('noexcept_context_throwing_calls', {})[what] = cnt
+
+
+def _rule_loop_subscripts(prog, chk, R):
+    """R12.12 — a std::vector subscripted by the counter of a counted loop is in range: the loop condition (or a test inside the
+    body) bounds the counter by that vector's size; or by the size of a vector a dominating test makes equally long; or by the
+    very value the vector was resized to before the loop; or by the size of the sibling member it is always resized to
+    (checked: every resize of the member has that argument, nothing else changes its length)."""
+    from .C13 import _cfg_node_containing, _bound_test, _same_size_fact, _no_write_between, _peel as p13
+    evfile = R.ev_method('execute').file
+    fns = [f for f in prog.functions if f.body and f.file == evfile]
+
+    def conj(c, pol):
+        c = SX.strip(c)
+        if pol and SX.is_node(c) and c.get('k') == 'bin' and c['op'] == '&&':
+            return conj(c['l'], True) + conj(c['r'], True)
+        if not pol and SX.is_node(c) and c.get('k') == 'bin' and c['op'] == '||':
+            return conj(c['l'], False) + conj(c['r'], False)
+        return [(c, pol)]
+
+    def member_resizes(fld):
+        out = []
+        other = []
+        for f in fns:
+            for x in SX.walk(f.body, into_lambdas=False):
+                if x.get('k') == 'mcall' and not x.get('constm', True):
+                    o = p13(x.get('obj'))
+                    if SX.is_node(o) and o.get('k') == 'member' and o.get('name') == fld:
+                        sh = SX.short(x['callee'])
+                        if sh in ('resize', 'assign'):
+                            out.append((f, x, o))
+                        elif not (sh == 'clear' and f.kind == 'dtor'):
+                            other.append((f, x))
+        return out, other
+    n = 0
+    for f in fns:
+        loops = []
+        for s in SX.walk(f.body, into_lambdas=False):
+            if s.get('k') == 'for' and s.get('init') and s['init'].get('k') == 'decls' and len(s['init']['d']) == 1 and SX.is_node(s.get('c')):
+                loops.append(s)
+        if not loops:
+            continue
+        g = None
+        for lp in loops:
+            v = lp['init']['d'][0]
+            subs = [x for x in SX.walk(lp['body'], into_lambdas=False) if x['k'] == 'index' and (x.get('bt') or '').replace('const ', '').startswith('std::vector<')
+                    and SX.is_node(p13(x['i'])) and p13(x['i']).get('k') == 'ref' and p13(x['i']).get('id') == v['id']]
+            if not subs:
+                continue
+            g = g or prog.cfg(f)
+            for x in subs:
+                n += 1
+                V = SX.show(p13(x['base']))
+                node = _cfg_node_containing(g, x)
+                if node is None:
+                    raise AnalysisBroken('%s: subscript %s not found in the flow graph' % (f.short, SX.show(x)[:40]))
+                facts = [(c_, p_, ed) for ce, pol, ed in g.guards(node) for c_, p_ in conj(ce, pol)]
+                # the subscript may sit in the right operand of && inside its own condition
+                if node.kind == 'cond' or True:
+                    def left_conj(e, target):
+                        e = SX.strip(e)
+                        if SX.is_node(e) and e.get('k') == 'bin' and e['op'] == '&&' and any(y is target for y in SX.walk(e['r'])):
+                            return conj(e['l'], True) + left_conj(e['r'], target)
+                        if SX.is_node(e) and e.get('k') == 'bin' and e['op'] == '&&' and any(y is target for y in SX.walk(e['l'])):
+                            return left_conj(e['l'], target)
+                        return []
+                    if SX.is_node(node.e):
+                        for top in SX.walk(node.e, into_lambdas=False):
+                            if top.get('k') == 'bin' and top.get('op') == '&&' and any(y is x for y in SX.walk(top)):
+                                facts += [(c_, p_, None) for c_, p_ in left_conj(top, x)]
+                                break
+                ok, why = False, 'the counter %s is not bounded by %s.size()' % (v['name'], V)
+                bounds = []      # (text of W, edge) for every fact  counter < W.size()
+                for ce, pol, ed in facts:
+                    r_ = _bound_test(ce, pol, v['name'], V)
+                    if r_ is not None and r_ >= 0:
+                        ok, why = True, 'bounded by its own size'
+                        break
+                    cp = SX.cmp_parts(ce)
+                    if cp:
+                        op, l, r = cp
+                        if not pol:
+                            op = {'==': '!=', '!=': '==', '<': '>=', '>=': '<', '>': '<=', '<=': '>'}[op]
+                        if op == '<' and SX.show(p13(l)) == v['name']:
+                            bounds.append(p13(r))
+                        if op == '>' and SX.show(p13(r)) == v['name']:
+                            bounds.append(p13(l))
+                if not ok:
+                    for b in bounds:
+                        bt = SX.show(b)
+                        W = SX.show(p13(b.get('obj'))) if SX.is_node(b) and b.get('k') == 'mcall' and SX.short(b.get('callee', '')) == 'size' else None
+                        # (d) a dominating test makes V and W equally long
+                        if W and any(_same_size_fact(c2, p2, V, W) for c2, p2, e2 in facts):
+                            ok, why = True, 'bounded by %s.size(), and %s.size() == %s.size() holds here' % (W, V, W)
+                            break
+                        # (c) V was resized to the bound before the loop
+                        for cn in g.nodes:
+                            if cn.kind == 'call' and SX.is_node(cn.e) and cn.e.get('k') == 'mcall' and SX.short(cn.e.get('callee', '')) in ('resize', 'assign') and \
+                                    SX.show(p13(cn.e.get('obj'))) == V and SX.real_args(cn.e) and SX.show(p13(SX.real_args(cn.e)[0])) == bt and g.dominates(cn, node):
+                                ok, why = True, 'resized to %s before the loop' % bt
+                        if ok:
+                            break
+                        # (e) sibling members of one record kept equally long
+                        vb = p13(x['base'])
+                        wb = p13(b.get('obj')) if W else None
+                        if SX.is_node(vb) and vb.get('k') == 'member' and SX.is_node(wb) and wb.get('k') == 'member' and SX.show(p13(vb['base'])) == SX.show(p13(wb['base'])):
+                            rs, other = member_resizes(vb['name'])
+                            good = bool(rs) and not other
+                            for rf, rc, ro in rs:
+                                a = SX.real_args(rc)
+                                a0 = p13(a[0]) if a else None
+                                if not (SX.is_node(a0) and a0.get('k') == 'mcall' and SX.short(a0.get('callee', '')) == 'size' and SX.is_node(p13(a0.get('obj'))) and
+                                        p13(a0['obj']).get('k') == 'member' and p13(a0['obj'])['name'] == wb['name'] and SX.show(p13(p13(a0['obj'])['base'])) == SX.show(p13(ro['base']))):
+                                    good = False
+                            if good:
+                                ok, why = True, '%s is resized to %s.size() wherever it is sized (%d sites) and its length changes nowhere else' % (vb['name'], wb['name'], len(rs))
+                                break
+                chk.ob('R12.12', f, x.get('ln', f.ln), ok, 'subscript %s by the loop counter: %s (an index past the end reads or writes outside the vector: the interpreter dies from a signal)' % (
+                    SX.show(x)[:40], why), key='loop-subscript:%s:%s' % (f.short, SX.show(x)[:30]))
+    chk.count('vector subscripts by a loop counter', n, 50)
